@@ -310,7 +310,7 @@ class Report:
             self.known_hits[finding] = self.known_hits.get(finding, 0) + 1
             return
         if len(self.violations) < 25:
-            p = self.replay_file(dict(property=self.pid, what=what, **payload))
+            p = self.replay_file(dict(property=self.pid, what=what, tier=tier(), seed=seed(), **payload))
         else:
             p = "(suppressed: more than 25)"
         self.violations.append((what, p))
